@@ -562,6 +562,7 @@ func init() {
 		Level: "exploration",
 		Rule: "exhaustive sweep within bounds: current and requested replica count in 0..12 (two-digit ordinals included) x 0..2 volume claim templates x deletion flag x 6 pod-list order classes x readiness patterns (quick: none / all / two alternating masks; thorough: every subset of pods with an IP up to 6 pods, 16 random subsets above), each with claims for all ordinals 0..12 of two StatefulSets plus decoys with similar names (data-prom-100, xdata-prom-1, data-promx-0, data-prom-b-k) and, in half of the cases, a second StatefulSet 'prom-b'; plus, for counts 0..6, every (first request, second request on the SAME manager object) pair and every (count set by somebody else behind the manager's back, request) pair; plus rolling-update-in-progress cases; plus update-rejected cases (Conflict / server error: the count stays, no claim may go); plus scripted lives of a StatefulSet over 4-11 cycles (ready / not ready / three shapes of a rolling update, 0-130 s passing between cycles through the verif hook that shifts the manager's not-ready timers): while a rolling update is in progress it must not be handed to the coordinator, however long it lasts; " +
 			"the real kubernetes.ReplicasManager / shard manager run on a client-go fake clientset; oracle over returned shards (ID, readiness, contacted URL) and over the fake's action log and objects; " +
+			"plus two installations of one chart in two namespaces under a manager for all namespaces (each manager lists its own pods with their own addresses); " +
 			"plus second listings through the SAME replicas manager after every pod was re-created with another IP, pods without an IP got one and pod 0 lost its IP (1-12 pods, six order classes, three readiness masks); " +
 			"plus listings with one or two pods missing and/or a foreign pod carrying the selector's labels (2-12 pods, six order classes): no position may be ready unless the pod of that ordinal is listed with an IP, and no ready shard appears twice; " +
 			"non-trivial = every case; distinct = the parameter tuple",
